@@ -61,6 +61,26 @@ def universe_entities(C, S1, S2):
     return [mk(C["task"], v, C["scene_tail"]) for v in S1] + [mk(C["task"], v, C["movie_tail"]) for v in S2]
 
 
+def build_universe(C, pr, S1, S2, linked=False):
+    """Materialise the versions; linked: the greatest scene version's folder is a symbolic link to the previous one's folder
+    (a version published by linking): it exists as a version, the scene file of that version does not."""
+    import os
+    from mc import env, tree
+    env.clear_tree()
+    if not (linked and len(S1) >= 2):
+        tree.materialize(C["ref"], pr, universe_entities(C, S1, S2))
+        return scopes(C, S1, S2)
+    top, prev = sorted(S1, key=num)[-1], sorted(S1, key=num)[-2]
+    tree.materialize(C["ref"], pr, universe_entities(C, [v for v in S1 if v != top], [v for v in S2 if v != top]))
+    p_top = tree.entity_path(C["ref"], pr, mk(C["task"], top, []))[0]
+    p_prev = tree.entity_path(C["ref"], pr, mk(C["task"], prev, []))[0]
+    if not os.path.lexists(p_top):
+        os.symlink(p_prev, p_top)
+    sc = scopes(C, [v for v in S1 if v != top], [v for v in S2 if v != top])
+    sc["version"] = sorted(set(sc["version"]) | {top})
+    return sc
+
+
 def scopes(C, S1, S2):
     """existing versions per scope."""
     return {"version": sorted(set(S1) | set(S2)), "scene": sorted(S1), "movie": sorted(S2)}
@@ -177,15 +197,14 @@ def run_shard(sh):
                 key = ",".join(S1) + "|" + ",".join(S2)
                 if not rec.mine(key):
                     continue
-                env.clear_tree()
-                tree.materialize(ref, pr, universe_entities(C, S1, S2))
-                env.reset()
-                ex = scopes(C, S1, S2)
-                for s, scope, v in sid_cases(C):
-                    viols, cls = check_single(C, s, scope, v, ex)
-                    rec.case(cls, True, sample=[S1, S2, s])
-                    for x in viols:
-                        rec.violation(x["signature"], "single", [S1, S2, s, scope, v], x["observed"], x["expected"])
+                for linked in ((False, True) if (len(S1) >= 2 and not S2 and not sh.get("env")) else (False,)):
+                    ex = build_universe(C, pr, S1, S2, linked)
+                    env.reset()
+                    for s, scope, v in sid_cases(C):
+                        viols, cls = check_single(C, s, scope, v, ex)
+                        rec.case(cls + ("/linked-version" if linked else ""), True, sample=[S1, S2, s])
+                        for x in viols:
+                            rec.violation(x["signature"] + ("/greatest-version-is-a-link" if linked else ""), "single", [S1, S2, s, scope, v, linked], x["observed"], x["expected"])
         res = rec.result()
         if sh.get("env"):
             for lst in res["violations"].values():
@@ -300,11 +319,11 @@ def replay_case(kind, case):
     c0 = C["names"][0]
     pr = C["prs"][c0]
     if kind == "single":
-        S1, S2, s, scope, v = case
-        env.clear_tree()
-        tree.materialize(C["ref"], pr, universe_entities(C, S1, S2))
+        S1, S2, s, scope, v = case[:5]
+        linked = len(case) > 5 and case[5]
+        ex = build_universe(C, pr, S1, S2, linked)
         env.reset()
-        return check_single(C, s, scope, v, scopes(C, S1, S2))[0]
+        return [dict(x, signature=x["signature"] + ("/greatest-version-is-a-link" if linked else "")) for x in check_single(C, s, scope, v, ex)[0]]
     # history: re-run and compare every step with the model
     from spil import Sid, WriteToPaths, SpilException
     out = []
